@@ -42,22 +42,61 @@ Definition strip_raw (s : str) : str :=
   | _ => s
   end.
 
-(** [EntryType::display_name] (entry/generic.rs:101-114): drop leading module
-    components, but never look past the first '<'.  [cur] is the current
-    candidate (the text after the last "::" seen). *)
+(** [EntryType::display_name] (entry/generic.rs): drop leading [ident::]
+    components of [std::any::type_name]; stop as soon as the text before the next
+    "::" is not a plain identifier (alphanumeric or '_'), so that type syntax other
+    than a path ([&T], [(A, B)], [[T; N]], [fn(A) -> B], [dyn Tr], [*const T], and
+    anything after a '<') is kept whole (F13).  [cur] is the current candidate (the text
+    after the last "::" stripped).  Bytes >= 128 (UTF-8 of non-ASCII identifier
+    characters) count as identifier bytes. *)
+Definition is_ident_byte (c : N) : bool :=
+  ((48 <=? c) && (c <=? 57)) || ((65 <=? c) && (c <=? 90)) || ((97 <=? c) && (c <=? 122)) || (c =? 95) || (128 <=? c).
+
 Fixpoint ty_scan (s cur : str) : str :=
+  match s with
+  | [] => cur
+  | c :: rest =>
+      if is_ident_byte c then ty_scan rest cur
+      else match rest with
+           | c2 :: rest2 =>
+               if (c =? ch_colon) && (c2 =? ch_colon) then ty_scan rest2 rest2
+               else cur
+           | [] => cur
+           end
+  end.
+Definition type_display (raw : str) : str := ty_scan raw raw.
+
+(** The label function before the repair: strip up to the first '<' whatever precedes the "::". *)
+Fixpoint ty_scan_old (s cur : str) : str :=
   match s with
   | [] => cur
   | c :: rest =>
       if c =? ch_lt then cur
       else match rest with
            | c2 :: rest2 =>
-               if (c =? ch_colon) && (c2 =? ch_colon) then ty_scan rest2 rest2
-               else ty_scan rest cur
+               if (c =? ch_colon) && (c2 =? ch_colon) then ty_scan_old rest2 rest2
+               else ty_scan_old rest cur
            | [] => cur
            end
   end.
-Definition type_display (raw : str) : str := ty_scan raw raw.
+Definition type_display_old (raw : str) : str := ty_scan_old raw raw.
+
+(** A type name with every [ident::] path qualifier deleted ("alloc::vec::Vec<alloc::string::String>"
+    becomes "Vec<String>"): what a label must agree with.  [run]: the identifier
+    characters read since the last non-identifier character, reversed. *)
+Fixpoint unq (s run : str) : str :=
+  match s with
+  | [] => rev run
+  | c :: rest =>
+      if is_ident_byte c then unq rest (c :: run)
+      else match rest with
+           | c2 :: rest2 =>
+               if (c =? ch_colon) && (c2 =? ch_colon) then unq rest2 []
+               else rev run ++ c :: unq rest []
+           | [] => rev run ++ [c]
+           end
+  end.
+Definition unqualify (s : str) : str := unq s [].
 
 (** [BenchOptions], as far as this group needs it: the [ignore] field, and
     [sample_count] as a representative of the other per-field options.
